@@ -316,7 +316,8 @@ pub fn run_workload(sub: u64, acc: &mut Acc, ctx: &Ctx, _thorough: bool) {
     }
     let shadow_out = ctx.run(&shadow, &shadow_spec, 60);
     let got = ctx.run(&scratch, &spec, 90);
-    let again = ctx.run(&scratch, &spec, 90);
+    // (a run that hung is reported below; it is not repeated)
+    let again = if got.timed_out { got.clone() } else { ctx.run(&scratch, &spec, 90) };
     acc.evals += 3;
     let differ = again.stdout != got.stdout || again.code != got.code || sorted(&again.stderr) != sorted(&got.stderr);
     // Under pipe faults the read that is answered EINTR is not the same in both executions
